@@ -170,6 +170,8 @@ class Interp(ExprMixin, CallMixin):
         return m(stmt, st)
 
     def _raise_out(self, r, s):
+        if r.typ == 'CUT':
+            return (('cut',), s)
         return (('raise', r), s)
 
     # ----------------------------------------------------------- statements
